@@ -1311,6 +1311,10 @@ func (rc *RegClient) ImageImport(ctx context.Context, r ref.Ref, rs io.ReadSeeke
 		// import failed but manifest.json found, fall back to manifest.json processing
 		// add handlers for the docker manifest layers
 		rc.imageImportDockerAddLayerHandlers(ctx, r, trd)
+		if trd.dockerManifest.SchemaVersion == 0 {
+			// no entry of manifest.json was selected
+			return fmt.Errorf("could not find requested name in manifest.json, %s%.0w", trd.name, errs.ErrNotFound)
+		}
 		// reprocess the tar looking for manifest.json files
 		err = trd.tarReadAll(rs)
 		if err != nil {
